@@ -1063,6 +1063,8 @@ func checkTermLoops(c *core.Ctx, l *core.Ledger, keep func(*ssa.Function) bool) 
 				l.Ok("LOOPS", key, pos, why)
 			} else if why, ok := fieldChaseLoop(c, f, body); ok {
 				l.Ok("LOOPS", key, pos, why)
+			} else if why, ok := shrinkingStringLoop(f, body); ok {
+				l.Ok("LOOPS", key, pos, why)
 			} else {
 				l.Bad("LOOPS", key, pos, "loop with no recognised termination certificate (not a range, not counted, no visited set, no strictly increasing fresh-name counter)")
 			}
